@@ -117,6 +117,31 @@ reg(NNOp("linear", {
     documented=lambda a: len(a["xshape"]) == 2, argclass=lambda a: f"x{len(a['xshape'])}d,bias={a['bias']}" + (",zero-bias" if a.get("zero_bias") else "")))
 
 
+# ---------------------------------------------------------------------------------------- Flatten layer (reach monitor: no workload constructed it)
+def _flatten_ref(xs, a):
+    x = xs[0]
+    r = x.ndim
+    s_, e_ = a.get("start", 1), a.get("end", -1)
+    if r == 0:
+        return x.reshape(1)
+    s2, e2 = s_ % r if -r <= s_ < r else None, e_ % r if -r <= e_ < r else None
+    if s2 is None or e2 is None or s2 > e2:
+        return Reject("dims out of range / start after end")
+    return x.reshape(x.shape[:s2] + (int(np.prod(x.shape[s2:e2 + 1])),) + x.shape[e2 + 1:])
+
+
+def _flatten_module(L, t, a):
+    if a.get("defaults"):
+        return L.nn.Flatten()(t[0])
+    if a.get("kw"):
+        return L.nn.Flatten(start_dim=a["start"], end_dim=a["end"])(t[0])
+    return L.nn.Flatten(a["start"], a["end"])(t[0])
+
+
+reg(NNOp("flatten_layer", {"module": _flatten_module}, lambda a: [X(a["shape"])], _flatten_ref, mode="affine",
+         argclass=lambda a: "defaults" if a.get("defaults") else f"rank{len(a['shape'])},start={a['start']},end={a['end']}"))
+
+
 # ---------------------------------------------------------------------------------------- conv / pool / unfold / fold
 def _geo_class(a):
     ks = a["kernel"] if isinstance(a["kernel"], list) else [a["kernel"]]
@@ -526,6 +551,14 @@ def grid(name, tier, rng):
                             # momentum 0.0 is a number, not "no momentum": the running statistics stay where they are
                             out.append({"xshape": xs, "training": False, "affine": affine, "track": True, "momentum": 0.0 if affine else 0.5, "eps": 1e-3,
                                         "history": True, "module_only": True})
+    elif name == "flatten_layer":
+        for shp in [[2, 3], [2, 3, 4], [2, 1, 3, 2], [3, 2, 2, 2, 2]]:
+            out.append({"shape": shp, "defaults": True, "start": 1, "end": -1})
+            r = len(shp)
+            for s_ in range(-r, r):
+                for e_ in range(-r, r):
+                    if s_ % r <= e_ % r:
+                        out.append({"shape": shp, "start": s_, "end": e_, "kw": (s_ + e_) % 2 == 0})
     elif name == "dropout":
         for s in [[4, 5], [2, 3, 4], [20]]:
             for p in (0, 0.3, 0.9, 1, 0.5):
